@@ -1,5 +1,52 @@
-/- C20 placeholder: theorems are added as they are proved. -/
-import EtkVerif.Cfg.Model
+/-
+C20 — The control-flow graph is structurally well formed.
+
+`Graph` has, by construction, one node per block plus the two special nodes,
+and only blocks are sources of edges (the special nodes have no successors).
+* `C20_shape`: every edge leaves an existing block and leads to a
+  jumpdest-headed block, to the block at the source's fall-through offset, or to
+  a special node (bad-jump only from jumps); no edge is listed twice.
+* `C20_refine_subgraph`: refinement keeps the nodes and removes edges only.
+* `C20_successors`: after refinement by a sound solver every block keeps at
+  least one successor, and a block that ends by falling through or halting has
+  exactly its one mandatory successor.
+* `C20_total`: building and refining never panic.
+-/
+import EtkVerif.Cfg.Lemmas
 namespace EtkVerif.C20
-theorem C20_placeholder : True := trivial
+open Annot Smt Cfg
+
+theorem C20_shape (anns : List Annotated) (g : Graph) (hg : cfgNew anns = .ok g) :
+    g.blocks = anns ∧ g.edges.Nodup ∧
+    ∀ e ∈ g.edges, ∃ a, anns[e.1]? = some a ∧
+      (match e.2 with
+       | .block j => ∃ c, anns[j]? = some c ∧
+           (c.jumpTarget = true ∨ fallThroughOf a.exit = some c.offset)
+       | .terminate => True
+       | .badJump => (match a.exit with | .unconditional _ => True | .branch _ _ _ => True | _ => False)) :=
+  cfg_shape anns g hg
+
+theorem C20_refine_subgraph (sat : List BTerm → Bool) (g g' : Graph) (hr : refine sat g = .ok g') :
+    g'.blocks = g.blocks ∧ g'.edges.Sublist g.edges :=
+  refine_subgraph sat g g' hr
+
+theorem C20_successors (t : OpTable) (bs : List Blocks.Block) (anns : List Annotated) (hS : Setup t bs anns)
+    (g g' : Graph) (hg : cfgNew anns = .ok g)
+    (sat : List BTerm → Bool) (hsat : SoundSat sat) (hr : refine sat g = .ok g')
+    (i : Nat) (a : Annotated) (ha : anns[i]? = some a) :
+    (∃ n, (i, n) ∈ g'.edges) ∧
+    (match a.exit with
+     | .terminate => ∀ n, (i, n) ∈ g'.edges ↔ n = .terminate
+     | .fallThrough f => ∀ n, (i, n) ∈ g'.edges ↔
+         n = (match blockAt anns f with | some j => Node.block j | none => Node.terminate)
+     | _ => True) :=
+  refine_successors t bs anns hS g g' hg sat hsat hr i a ha
+
+theorem C20_total (t : OpTable) (bs : List Blocks.Block) (anns : List Annotated) (hS : Setup t bs anns)
+    (sat : List BTerm → Bool) :
+    ∃ g g', cfgNew anns = .ok g ∧ refine sat g = .ok g' := by
+  obtain ⟨g, hg⟩ := cfgNew_total t bs anns hS
+  obtain ⟨g', hr⟩ := refine_total t bs anns hS g hg sat
+  exact ⟨g, g', hg, hr⟩
+
 end EtkVerif.C20
